@@ -1,6 +1,9 @@
 pub mod c02;
 pub mod c03;
 pub mod c04;
+pub mod c05;
+pub mod c06;
+pub mod c07;
 pub mod c09;
 pub mod c13;
 pub mod c16;
@@ -16,6 +19,9 @@ pub fn variants(prop: &str) -> Vec<&'static Variant> {
         "C02" => c02::variants(),
         "C03" => c03::variants(),
         "C04" => c04::variants(),
+        "C05" => c05::variants(),
+        "C06" => c06::variants(),
+        "C07" => c07::variants(),
         "C09" => c09::variants(),
         "C13" => c13::variants(),
         "C16" => c16::variants(),
@@ -31,6 +37,9 @@ pub fn run(prop: &str, ctx: &Ctx) -> Option<i32> {
         "C02" => c02::run(ctx),
         "C03" => c03::run(ctx),
         "C04" => c04::run(ctx),
+        "C05" => c05::run(ctx),
+        "C06" => c06::run(ctx),
+        "C07" => c07::run(ctx),
         "C09" => c09::run(ctx),
         "C13" => c13::run(ctx),
         "C16" => c16::run(ctx),
